@@ -53,6 +53,7 @@ func debugf(format string, stuff ...any) {
 }
 
 func captureDoBindDebugging(sc *Collection, invokeF *provider, initF *provider) string {
+	verifYield("debug-lock")
 	debugLock.Lock()
 	if atomic.SwapUint32(&debug, 1) == 1 {
 		return "already capturing"
